@@ -25,13 +25,19 @@ void run_C13(vh::Ctx& c) {
   // the space is tiny: every shard would do the same work, so only shard 0 runs it
   if (c.a.shard != 0) return;
   c.begin_case(0);
+  // every factory call below is preceded by releasing a same-dimension vector full of junk, so that the
+  // block the factory recycles from the storage cache is dirty (a factory that relies on fresh memory fails)
+  auto dirty = [](int d) { SU_vector junk(d); junk.SetAllComponents(7.25e5); };
   for (int d = 2; d <= 6; d++) {
+    dirty(d);
     judge(c, "Identity", d, 0, SU_vector::Identity(d), ref::Mat::identity(d));
     for (int i = 0; i < d; i++) {
       ref::Mat e(d); e(i, i) = 1;
+      dirty(d);
       judge(c, "Projector", d, i, SU_vector::Projector(d, i), e);
     }
     for (int k = 0; k < d * d; k++) {
+      dirty(d);
       SU_vector g = SU_vector::Generator(d, k);
       judge(c, "Generator", d, k, g, ref::basis(d, k));
       // "the unit vector along component k": exact
@@ -43,7 +49,9 @@ void run_C13(vh::Ctx& c) {
       ref::Mat p(d), n(d);
       for (int i = 0; i < k; i++) p(i, i) = 1;
       for (int i = d - k; i < d; i++) n(i, i) = 1;
+      dirty(d);
       judge(c, "PosProjector", d, k, SU_vector::PosProjector(d, k), p);
+      dirty(d);
       judge(c, "NegProjector", d, k, SU_vector::NegProjector(d, k), n);
     }
     // consequences, evaluated with the library's own algebra (independent monitors)
